@@ -184,6 +184,10 @@ def run(ctx: Ctx) -> None:
 
     c09.run(Alias(ctx, "C02.R8", "HTTP/2 serialisation: DATA payload/length provenance, unblock->wake-up, END_STREAM once after completion, window updates reach the send task (C09.R1/R3/R5/R6/R9)", only={"C09.R1", "C09.R3", "C09.R5", "C09.R6", "C09.R9"}))
 
+    from . import c08, c19
+
+    c08.run(Alias(ctx, "C02.R10", "serialised bytes are written to the transport and drained under the send lock in both workers (C08.R5)", only={"C08.R5"}))
+    c19.run(Alias(ctx, "C02.R7b", "the server's own headers are date (RFC 7231 date of now), server and alt-svc, exactly under their switches, in that order (C19.R6)", only={"C19.R6"}))
     ctx.assume("not decided: that h11/h2 serialise those events into bytes a client parses back identically; chunked vs content-length framing chosen inside h11; byte-level flow control (C09)")
     from . import typestate_rules
 
